@@ -2608,7 +2608,8 @@ def check_C13(res):
 
 C13_THEOREMS = ['Blf.Props.C13_after_destroy', 'Blf.Props.C13_flags_read_obj', 'Blf.Props.C13_flags_read_null']
 C12_THEOREMS = ['Blf.Props.C12_read_session_bounded', 'Blf.Props.C12_write_session_bounded', 'Blf.Props.C12_drop_leaves_one_container',
-                'Blf.Props.C12_write_session_resident', 'Blf.Props.C12_write_held_since_drop', 'Blf.Props.C12_write_held_after_drop']
+                'Blf.Props.C12_write_session_resident', 'Blf.Props.C12_write_held_since_drop', 'Blf.Props.C12_write_held_after_drop',
+                'Blf.Props.C12_read_held_after_drop']
 
 
 def struct_pack(fmt, v):
